@@ -159,6 +159,19 @@ def correspondence(ctx, violations, known_hits):
             if nv <= 8:
                 violations.append({"kind": "verdicts-disagree", "tag": tag, "feature_stack": feat, "source": text if isinstance(text, str) else "bytes " + text.hex(),
                                    "check_exit": c, "compile_exit": m, "run_exit": r, "model_exit": me, "check_stderr": err.decode(errors="replace")})
+    # the source delivered through a NAMED PIPE (reported size 0, readable once), separately to each sub-command: the three agree on
+    # it as they do on the regular file
+    import clicommon as _cc
+    fsub = _cc.fresh_dir(ctx, "c07fifo")
+    for k, text in enumerate(("halt\n", "halt\nadd r0 r0\n", "halt\nbr nowhere\n", "halt\nbr far\n.blkw #600\nfar halt\n", "", "halt\nlea r0 s\ns .stringz \"x\"\n")):
+        open(os.path.join(fsub, "r%d.asm" % k), "w").write(text)
+        reg = [_cc.run_cli(exe, a, fsub)[0] for a in (["check", "r%d.asm" % k], ["compile", "r%d.asm" % k, "r%d.lc3" % k], ["run", "r%d.asm" % k, "--minimal"])]
+        got = [_cc.run_cli_fifo(exe, a, fsub, "p.asm", text.encode())[0] for a in (["check", "p.asm"], ["compile", "p.asm", "p%d.lc3" % k], ["run", "p.asm", "--minimal"])]
+        ev += 1
+        if [x != 0 for x in reg] != [x != 0 for x in got] or len({x != 0 for x in got}) != 1:
+            nv += 1
+            violations.append({"kind": "source-through-a-named-pipe", "source": text, "exits_on_the_regular_file": dict(zip(("check", "compile", "run"), reg)),
+                               "exits_on_the_named_pipe": dict(zip(("check", "compile", "run"), got))})
     import concurrent.futures
     with concurrent.futures.ThreadPoolExecutor(2) as pool:          # the two watchers do not share anything
         futs = [pool.submit(drive_watch, ctx, exe, srcs, model, violations, None, ft) for ft in (0, 1)]
